@@ -10,7 +10,7 @@ Stubs: see C06_build (structural `hash`, `np.isnan`, `float`->Num inside Paramet
 import copy
 import os
 
-from C06_build import (D, P, R, X, UNITS, Num, fields, frozenmapping, mk_cats, mk_col, mk_di, mk_est, mk_opts, mk_param, mk_params,
+from C06_build import (D, P, R, X, UNITS, frozenmapping, mk_cats, mk_col, mk_di, mk_est, mk_opts, mk_param, mk_params,
                        mk_sim, mk_steps, mk_strs, mk_vh, mk_vl, num_float_mode, property_names, reachable,
                        decide_real, shash, small, snapshot, unchanged, install_structural_hash)
 from pharmpy.model.distributions.symbolic import Distribution
@@ -21,15 +21,15 @@ MAXN = int(os.environ.get('VH_MAXN', '2'))          # elements per collection
 NU = int(os.environ.get('VH_NU', '2'))              # units used from the table
 DESC = os.environ.get('VH_DESC', 'same')            # ColumnInfo descriptors of a and b: same | free (finding F1)
 NOPT = int(os.environ.get('VH_NOPT', '1'))          # max tool_options entries; 2 = finding F2 isolated
-CATA = int(os.environ.get('VH_CATA', '0'))         # case split: categories kind of object a
-NONES = os.environ.get('VH_NONES', '0') == '1'
-AFLAGS = tuple(x == '1' for x in os.environ.get('VH_AFLAGS', '1,1').split(','))      # Optional fields: 0 = all set, 1 = None per group (symbolic)
+CATA = int(os.environ.get('VH_CATA', '0'))          # case split: categories kind of object a
+NONES = os.environ.get('VH_NONES', '0') == '1'      # EstimationStep: Optional fields None per group (else all set)
+AFLAGS = tuple(x == '1' for x in os.environ.get('VH_AFLAGS', '1,1').split(','))     # ... None-groups of object a
 STRLEN = int(os.environ.get('VH_STRLEN', '2'))      # string length bound
 NAMELEN = int(os.environ.get('VH_NAMELEN', '2'))    # names in the uniqueness obligations: len <= NAMELEN over {a,b}
 NK = int(os.environ.get('VH_NK', '2'))              # dict keys used from C06_build.KEYS
 CATKINDS = tuple(int(x) for x in os.environ.get('VH_CATKINDS', '0,1,3').split(','))
 NA = int(os.environ.get('VH_NA', '2'))              # case split: number of elements of object a
-SHAPE = tuple(int(x) for x in os.environ.get('VH_SHAPE', '1,1').split(','))
+SHAPE = tuple(int(x) for x in os.environ.get('VH_SHAPE', '1,1').split(','))   # EstimationStep a: #res/pred, #options
 PK = int(os.environ.get('VH_K', '-1'))              # case split for replace obligations
 
 
@@ -76,10 +76,6 @@ def trans_obligation(a, b, c):
     if not reachable(a, b, c):
         return True
     return decide_real(_trans, a, b, c)
-
-
-def _nonan(*xs):
-    return all(x == x for x in xs)
 
 
 # ---------------------------------------------------------------------------------------------------------
